@@ -234,6 +234,101 @@ Section Model.
                       end
         end
     end.
+
+  (* mapper_grids_from with preloads.relocated_grid = P (mesh/abstract.py relocated_grid_from returns P WITHOUT calling
+     the relocator; triangulation.py then relocates the mesh against the border of P, the data grid it passes on) *)
+  Definition mapper_grids_preloaded_from (relocator : option (mask * list nat)) (preload mesh_grid : list pt)
+    : res (list pt * list pt) :=
+    match relocator with
+    | None => Ok (preload, mesh_grid)
+    | Some (m, sub_size) => match relocated_mesh_grid_from m sub_size preload mesh_grid with
+                            | Raise e => Raise e
+                            | Ok mesh' => Ok (preload, mesh')
+                            end
+    end.
+
+  (* ---------------- histories: several calls on the same BorderRelocator objects ----------------
+     Relocators r = 0, 1, ... are BorderRelocator(mask, subs[r]) on ONE Mask2D object.  The only state an object
+     keeps between calls is the instance dictionary entry of the cached_property sub_border_slim (sub_border_grid is
+     cached likewise and enters the relocation only through its length = the length of sub_border_slim): computed at
+     the first access, stored only when the computation returns.  [run_history] threads that state through the
+     calls; [pure_call] is the stateless reading (every call judged on ITS OWN arguments). *)
+  Inductive call :=
+  | CReloc (r : nat) (grid : list pt)                       (* relocator r .relocated_grid_from(grid) *)
+  | CMesh (r : nat) (grid mesh_grid : list pt)              (* relocator r .relocated_mesh_grid_from(grid, mesh_grid) *)
+  | CMapper (r : option nat) (preload : option (list pt)) (grid mesh_grid : list pt)
+                                                            (* Delaunay/Voronoi mapper_grids_from(border_relocator = r,
+                                                               preloads.relocated_grid = preload) *)
+  | CSubBorder (r : nat)                                    (* relocator r .sub_border_slim *)
+  | CSubBorderGrid (r : nat).                               (* relocator r .sub_border_grid *)
+  Inductive outcome :=
+  | OPts (o : res (list pt))
+  | OPair (o : res (list pt * list pt))
+  | ONats (o : res (list nat)).
+
+  Definition relocator_of (m : mask) (subs : list (list nat)) (r : option nat) : option (mask * list nat) :=
+    match r with None => None | Some r => Some (m, nth r subs []) end.
+  Definition pure_call (m : mask) (ps origin : pt) (subs : list (list nat)) (c : call) : outcome :=
+    match c with
+    | CReloc r g => OPts (relocated_grid_from m (nth r subs []) g)
+    | CMesh r g v => OPts (relocated_mesh_grid_from m (nth r subs []) g v)
+    | CMapper r None g v => OPair (mapper_grids_from (relocator_of m subs r) g v)
+    | CMapper r (Some p) _ v => OPair (mapper_grids_preloaded_from (relocator_of m subs r) p v)
+    | CSubBorder r => ONats (sub_border_pixel_slim_indexes_from m (nth r subs []))
+    | CSubBorderGrid r => OPts (sub_border_grid m ps origin (nth r subs []))
+    end.
+
+  Definition cache : Type := list (option (list nat)).       (* per relocator: the stored sub_border_slim, if any *)
+  Fixpoint set_nth {A} (l : list A) (i : nat) (a : A) : list A :=
+    match l, i with
+    | [], _ => []
+    | _ :: t, 0%nat => a :: t
+    | h :: t, S i' => h :: set_nth t i' a
+    end.
+  (* self.sub_border_slim *)
+  Definition get_sub_border_slim (m : mask) (subs : list (list nat)) (st : cache) (r : nat) : res (list nat) * cache :=
+    match nth r st None with
+    | Some s => (Ok s, st)
+    | None => match sub_border_pixel_slim_indexes_from m (nth r subs []) with
+              | Ok s => (Ok s, set_nth st r (Some s))
+              | Raise e => (Raise e, st)
+              end
+    end.
+  (* relocated_grid_from (target = grid) / relocated_mesh_grid_from (target = mesh_grid) of object r *)
+  Definition obj_relocated (m : mask) (subs : list (list nat)) (st : cache) (r : nat) (grid target : list pt)
+    : res (list pt) * cache :=
+    let '(s, st') := get_sub_border_slim m subs st r in
+    (match s with Raise e => Raise e | Ok sbs => relocated_with sbs grid target end, st').
+  Definition run_call (m : mask) (ps origin : pt) (subs : list (list nat)) (st : cache) (c : call) : outcome * cache :=
+    match c with
+    | CReloc r g => let '(o, st') := obj_relocated m subs st r g g in (OPts o, st')
+    | CMesh r g v => let '(o, st') := obj_relocated m subs st r g v in (OPts o, st')
+    | CMapper None None g v => (OPair (Ok (g, v)), st)
+    | CMapper None (Some p) _ v => (OPair (Ok (p, v)), st)
+    | CMapper (Some r) None g v =>
+        let '(d, st1) := obj_relocated m subs st r g g in
+        match d with
+        | Raise e => (OPair (Raise e), st1)
+        | Ok data' => let '(w, st2) := obj_relocated m subs st1 r data' v in
+                      (OPair (match w with Raise e => Raise e | Ok mesh' => Ok (data', mesh') end), st2)
+        end
+    | CMapper (Some r) (Some p) _ v =>
+        let '(w, st1) := obj_relocated m subs st r p v in
+        (OPair (match w with Raise e => Raise e | Ok mesh' => Ok (p, mesh') end), st1)
+    | CSubBorder r => let '(s, st') := get_sub_border_slim m subs st r in (ONats s, st')
+    | CSubBorderGrid r =>
+        let '(s, st') := get_sub_border_slim m subs st r in
+        (OPts (match s with
+               | Raise e => Raise e
+               | Ok sbs => gather (grid_2d_slim_over_sampled_via_mask_from m ps (nth r subs []) origin) sbs
+               end), st')
+    end.
+  Fixpoint run_history (m : mask) (ps origin : pt) (subs : list (list nat)) (st : cache) (cs : list call) : list outcome :=
+    match cs with
+    | [] => []
+    | c :: t => let '(o, st') := run_call m ps origin subs st c in o :: run_history m ps origin subs st' t
+    end.
+  Definition fresh (subs : list (list nat)) : cache := repeat None (length subs).
 End Model.
 
 (* ============================================================ independent specification *)
@@ -374,7 +469,13 @@ Inductive case :=
   (* grid_2d_util.furthest_grid_2d_slim_index_from *)
 | KFurthest (g : list Qpt) (idx : list nat) (coordinate : Qpt) (out : res nat)
   (* mask_2d_util.border_slim_indexes_from *)
-| KBorderIdx (m : mask) (out : list nat).
+| KBorderIdx (m : mask) (out : list nat)
+  (* mapper_grids_from(..., preloads = Preloads(relocated_grid = preload)): the data-grid step is skipped *)
+| KMapperPre (rel : option (mask * list nat)) (sbs : list nat) (preload mesh_grid : list Qpt) (out : res (list Qpt * list Qpt))
+  (* a HISTORY: relocators r = 0, 1, .. = BorderRelocator(mask, fst (nth r rels)) on one Mask2D (pixel scales ps, origin);
+     snd (nth r rels) = the sub_border_slim object r reported at its FIRST read; then the calls in order, each with
+     the CURRENT contents of its arguments and what the implementation returned *)
+| KHist (m : mask) (ps origin : Qpt) (rels : list (list nat * list nat)) (steps : list (@call QOps * @outcome QOps)).
 
 (* model output vs implementation output: where the model returns the INPUT coordinate the implementation must
    return the very same numbers; moved coordinates are compared to 1e-9 (sqrt) *)
@@ -390,17 +491,31 @@ Definition res_pts_agree (inp : list Qpt) (model impl : res (list Qpt)) : bool :
   end.
 Definition nat_list_eqb := list_eqb Nat.eqb.
 
+Definition pair_agree (inp_d inp_v : list Qpt) (model impl : res (list Qpt * list Qpt)) : bool :=
+  match model, impl with
+  | Ok (d, v), Ok (d', v') => pts_agree inp_d d d' && pts_agree inp_v v v'
+  | Raise e, Raise f => exn_eqb e f
+  | _, _ => false
+  end.
+(* one call of a history: the model's outcome (state threaded by [run_history]) vs the implementation's *)
+Definition step_agree (c : @call QOps) (model impl : @outcome QOps) : bool :=
+  match c, model, impl with
+  | CReloc _ g, OPts a, OPts b => res_pts_agree g a b
+  | CMesh _ _ v, OPts a, OPts b => res_pts_agree v a b
+  | CMapper _ None g v, OPair a, OPair b => pair_agree g v a b
+  | CMapper _ (Some p) _ v, OPair a, OPair b => pair_agree p v a b
+  | CSubBorder _, ONats a, ONats b => res_eqb nat_list_eqb a b
+  | CSubBorderGrid _, OPts a, OPts b => res_eqb (list_eqb pt_eq) a b
+  | _, _, _ => false
+  end.
+
 Definition agree (k : case) : bool :=
   match k with
   | KUtil grid border out => res_pts_agree grid (@relocated_grid_via_jit_from QOps grid border) out
   | KReloc m ss _ grid out => res_pts_agree grid (@relocated_grid_from QOps m ss grid) out
   | KMesh m ss _ grid mesh out => res_pts_agree mesh (@relocated_mesh_grid_from QOps m ss grid mesh) out
   | KMapper rel _ grid mesh out =>
-      match @mapper_grids_from QOps rel grid mesh, out with
-      | Ok (d, v), Ok (d', v') => pts_agree grid d d' && pts_agree mesh v v'
-      | Raise e, Raise f => exn_eqb e f
-      | _, _ => false
-      end
+      pair_agree grid mesh (@mapper_grids_from QOps rel grid mesh) out
   | KSubBorder m ss out => res_eqb nat_list_eqb (@sub_border_pixel_slim_indexes_from QOps m ss) out
   | KSubBorderGrid m ps origin ss _ out => res_eqb (list_eqb pt_eq) (@sub_border_grid QOps m ps origin ss) out
   | KFurthest g idx c out =>
@@ -410,6 +525,12 @@ Definition agree (k : case) : bool :=
       | _, _ => false
       end
   | KBorderIdx m out => nat_list_eqb (border_slim_indexes_from m) out
+  | KMapperPre rel _ pre mesh out => pair_agree pre mesh (@mapper_grids_preloaded_from QOps rel pre mesh) out
+  | KHist m ps origin rels steps =>
+      let subs := map fst rels in
+      let model := @run_history QOps m ps origin subs (fresh subs) (map fst steps) in
+      (length model =? length steps)%nat &&
+      forallb (fun t => step_agree (fst (fst t)) (snd t) (snd (fst t))) (combine steps model)
   end.
 
 Definition total_sub (sub_size : list nat) : nat := fold_right (fun s a => s * s + a)%nat 0%nat sub_size.
@@ -420,7 +541,8 @@ Definition enough (m : mask) (sub_size : list nat) (n : nat) : bool :=
   && forallb (fun s => 1 <=? s)%nat sub_size && rectb m.
 Definition border_of (grid : list Qpt) (sbs : list nat) : list Qpt := map (fun k => nth k grid (0, 0)) sbs.
 
-Definition spec_ok (k : case) : bool :=
+(* the specification's verdict on one call, on that call's own arguments *)
+Definition spec_ok1 (k : case) : bool :=
   match k with
   | KUtil grid border out =>
       match border, out with
@@ -458,6 +580,41 @@ Definition spec_ok (k : case) : bool :=
       | _, Raise _ => false
       end
   | KBorderIdx m out => negb (rectb m) || nat_list_eqb out (border_slim_spec m)
+  | KMapperPre None _ pre mesh out =>
+      match out with Ok (d, v) => list_eqb pt_eq d pre && list_eqb pt_eq v mesh | Raise _ => false end
+  | KMapperPre (Some (m, ss)) sbs pre mesh out =>
+      negb (enough m ss (length pre)) ||
+      sub_border_ok m ss sbs &&
+      match out with
+      | Ok (d, v) => list_eqb pt_eq d pre                       (* the preloaded data grid is passed on as it is *)
+                     && relocation_ok (border_of pre sbs) mesh v  (* and ITS border relocates the mesh *)
+      | Raise _ => false
+      end
+  | KHist _ _ _ _ _ => false                                    (* judged call by call, see [spec_ok] *)
+  end.
+
+(* a call of a history as the single-call case it is: judged with its own arguments and the sub-size map / reported
+   sub_border_slim of the relocator it was made on; what happened before does not enter *)
+Definition step_case (m : mask) (ps origin : Qpt) (rels : list (list nat * list nat))
+                     (s : @call QOps * @outcome QOps) : option case :=
+  let rel r := nth r rels ([], []) in
+  let orel r := match r with None => None | Some r => Some (m, fst (rel r)) end in
+  let osbs r := match r with None => [] | Some r => snd (rel r) end in
+  match s with
+  | (CReloc r g, OPts o) => Some (KReloc m (fst (rel r)) (snd (rel r)) g o)
+  | (CMesh r g v, OPts o) => Some (KMesh m (fst (rel r)) (snd (rel r)) g v o)
+  | (CMapper r None g v, OPair o) => Some (KMapper (orel r) (osbs r) g v o)
+  | (CMapper r (Some p) _ v, OPair o) => Some (KMapperPre (orel r) (osbs r) p v o)
+  | (CSubBorder r, ONats o) => Some (KSubBorder m (fst (rel r)) o)
+  | (CSubBorderGrid r, OPts o) => Some (KSubBorderGrid m ps origin (fst (rel r)) (snd (rel r)) o)
+  | _ => None
+  end.
+
+Definition spec_ok (k : case) : bool :=
+  match k with
+  | KHist m ps origin rels steps =>
+      forallb (fun s => match step_case m ps origin rels s with Some k1 => spec_ok1 k1 | None => false end) steps
+  | _ => spec_ok1 k
   end.
 
 Definition check (k : case) : nat := verdict (agree k) (spec_ok k).
